@@ -480,11 +480,11 @@ def configs(tier):
     return [
         ("sync", "threads", 2, 1, {}, 600),
         ("async", "asyncio", 2, 1, {}, 600),
-        ("sync", "threads", 3, 1, {"allow_nested": False}, 1500),
-        ("async", "asyncio", 3, 1, {"allow_nested": False, "max_yields": 1}, 1500),
-        ("sync", "threads", 2, 2, {"allow_nested": False}, 1500),
-        ("async", "asyncio", 2, 2, {"allow_nested": False, "max_yields": 1}, 1500),
-        ("sync", "threads", 3, 1, {}, 2400),
+        ("sync", "threads", 3, 1, {"allow_nested": False}, 900),
+        ("async", "asyncio", 3, 1, {"allow_nested": False, "max_yields": 1}, 900),
+        ("sync", "threads", 2, 2, {"allow_nested": False}, 900),
+        ("async", "asyncio", 2, 2, {"allow_nested": False, "max_yields": 1}, 900),
+        ("sync", "threads", 3, 1, {"allow_fail": False}, 900),
     ]
 
 
